@@ -184,6 +184,26 @@ Definition C03_ok (tr : trace) : bool :=
   (* the flag is polled in the tick that is running or in the next one: at most one more tick begins *)
   (ticks_after_flag false tr <=? 1) && c03_mon false tr.
 
+(* ---------- C08: launch() ends only because of a shutdown command, the uptime limit, an interrupt or an exception
+   raised by user code (a callback of a background thread, seen through its flag; the save condition; a component's
+   save): the shutdown event is set, the background threads are joined and launch() ends only after such a cause *)
+Definition is_cause (t : tid) (l : label) : bool :=
+  match t, l with
+  | TCtl, (LQGet CmdShutdown | LUptime true | LInterrupt | LIsSet (EExc _) true | LSaveCondRaise | LSaveRaise) => true
+  | _, _ => false
+  end.
+Fixpoint c08_mon (cause : bool) (tr : trace) : bool :=
+  match tr with
+  | [] => true
+  | (t, l) :: r =>
+      let cause' := cause || is_cause t l in
+      match t, l with
+      | TCtl, (LSet EShut | LJoin (TBg _) | LLaunchDone _) => cause && c08_mon cause' r
+      | _, _ => c08_mon cause' r
+      end
+  end.
+Definition C08_ok (tr : trace) : bool := c08_mon false tr.
+
 (* ---------- C02: every started background thread is joined before launch() ends, a joined thread does
    nothing any more, and the state written after the joins (the final one) comes after all of them ---------- *)
 Fixpoint c02_mon (started joined : nat) (tr : trace) : bool :=
